@@ -25,7 +25,7 @@ class Unsupported(Exception):
 
 
 # ------------------------------------------------------------------------------------------------ geometry
-REFVOL = {"interval": 1.0, "triangle": 0.5, "tetrahedron": 1 / 6, "quadrilateral": 1.0, "hexahedron": 1.0, "prism": 0.5}
+REFVOL = {"interval": 1.0, "triangle": 0.5, "tetrahedron": 1 / 6, "quadrilateral": 1.0, "hexahedron": 1.0, "prism": 0.5, "pyramid": 1 / 3}
 
 
 class Cell:
@@ -124,6 +124,15 @@ class Cell:
         T = np.array(ts).T
         return np.array([p0 + T @ np.asarray(X) for X in Xf])
 
+    def ridge_points(self, e, Xr):
+        """Reference ridge (edge of a 3D cell) e: X = p0 + s (p1 - p0)."""
+        p = self.refgeom[list(self.topo[self.tdim - 2][e])]
+        return np.array([p[0] + (p[1] - p[0]) * float(X[0]) for X in Xr])
+
+    def ridge_scale(self, e, X):
+        p = self.refgeom[list(self.topo[self.tdim - 2][e])]
+        return float(np.linalg.norm(self.geom(X)[1] @ (p[1] - p[0])))
+
     def facet_measure(self, f):
         self._need_affine("FacetArea")
         p = self.v[self.facet_vertices(f)]
@@ -155,7 +164,7 @@ def ref_tab(el, nd, X):
     if isinstance(el, basix.ufl._BlockedElement):
         sub, _ = ref_tab(el._sub_element, nd, X)  # [d][n][1]
         bs = el.block_size
-        if int(np.prod(el.reference_value_shape)) != bs or sub.shape[2] != 1:
+        if (not el._has_symmetry and int(np.prod(el.reference_value_shape)) != bs) or sub.shape[2] != 1:
             raise Unsupported("blocked element of a non-scalar element")
         out = np.zeros((sub.shape[0], sub.shape[1] * bs, bs))
         for n in range(sub.shape[1]):
